@@ -33,6 +33,9 @@ CFG = {
     # references (parent's by attribute path, by name, ...), extended motif programs, the structured families
     # of edit sequences, more ways to clear one element
     "ext": True,
+    # the enumeration also starts from the programs in which a cells' VALUE depends on the NAME of its space (all
+    # cached / the name-reading cells uncached), and renames every space that holds cells after every motif program
+    "enum_motifs": S.MOTIFS_NAME, "space_renames": True,
 }
 
 RULE = ("random interleavings (14-30 ops) of edits (value assignment/clearing; references created, changed, shadowed, "
